@@ -1,6 +1,7 @@
 import Lean.Data.Json
 import Ztr.Model.Filter
 import Ztr.Model.Layers
+import Ztr.Model.Shuffle
 /-!
 Line protocol between the Python harness and the executable model: one JSON object per line in,
 one JSON object per line out.  `op` selects the model component.  Unknown or malformed requests are
@@ -58,11 +59,26 @@ def opLayers (j : Json) : Except String Json := do
     ("gather", jNatss (ls.map (Ztr.Layers.gather G))),
     ("keys", Json.arr ((ls.map (fun l => jNatss (Ztr.Layers.sortKey G l))).toArray))]
 
+/-- `shuffle`: Shuffle.global_setup on `layers` = [[name code points, [test ids]], …] with the index
+stream `js`; also the seed hand-over. -/
+def opShuffle (j : Json) : Except String Json := do
+  let ls ← J.arr! j "layers"
+  let layers ← ls.toList.mapM (fun (x : Json) => do
+    let a ← x.getArr?
+    if a.size ≠ 2 then throw "shuffle: layer must be [name, tests]"
+    let n ← (← a[0]!.getArr?).toList.mapM (fun y => y.getNat?)
+    let ts ← (← a[1]!.getArr?).toList.mapM (fun y => y.getNat?)
+    return ((n, ts) : List Nat × List Nat))
+  let js ← J.nats! j "js"
+  let r := Ztr.Shuffle.shuffleAll layers js
+  return Json.mkObj [("layers", Json.arr (r.map (fun (n, ts) => Json.arr #[jNats n, jNats ts])).toArray)]
+
 def dispatch (j : Json) : Except String Json := do
   let op ← J.str! j "op"
   match op with
   | "filter" => opFilter j
   | "layers" => opLayers j
+  | "shuffle" => opShuffle j
   | _ => throw s!"unknown op {op}"
 
 partial def loop (h : IO.FS.Stream) (out : IO.FS.Stream) : IO Unit := do
